@@ -690,7 +690,8 @@ func oneCase(jsonOnly bool) func(k *vlib.Case) {
 func main() { vlib.Run("C43", run) }
 
 func run(c *vlib.Ctx) {
-	c.Rule("random pipelines: source {FromSlice[Result] with error elements, FromSlice[int]+ToResultIter, FromReaderJSON over a fragmenting io.ReadCloser with an optional malformed token} of 0-50 values, 0-4 layers of Map(7 fns)/Filter(8 predicates)/Limit(-1..60, biased to 0..6 and to len+-1), consumed by drain / partial pull of 0-8 / ReadAll / ReadAllResults, Val called 1-3 times, Close once or twice; distinct = FNV of source text+layers+consumer; non-trivial = >= 2 distinct layer kinds, some layer shrinks the list in the model, final list non-empty")
+	c.Rule("random pipelines: source {FromSlice[Result] with error elements, FromSlice[int]+ToResultIter, FromReaderJSON over a fragmenting io.ReadCloser with an optional malformed token} of 0-50 values, 0-4 layers of Map(7 fns)/Filter(8 predicates)/Limit(-1..60, biased to 0..6 and to len+-1), consumed by drain / partial pull of 0-8 / ReadAll / ReadAllResults, Val called 1-3 times, Close once or twice; stratum jsonstruct: FromReaderJSON[T] for T in {struct with optional fields, []int, map[string]int, *struct} over 0-24 documents of differing shape (omitted fields, shorter slices, other key sets, null) with an optional malformed document, 0-3 Map(id/clone/errIf)/Filter/Limit layers, same consumers, every yielded value retained and compared after each Next and at the end with per-document json.Unmarshal into a fresh value; distinct = FNV of source text+layers+consumer; non-trivial = >= 2 distinct layer kinds, some layer shrinks the list in the model, final list non-empty (jsonstruct: >= 3 documents, two successive documents of different shape, >= 2 values retained)")
 	c.Cases("compose", c.N(16000, 400000), oneCase(false))
 	c.Cases("json", c.N(4000, 100000), oneCase(true))
+	c.Cases("jsonstruct", c.N(4000, 100000), structCase)
 }
